@@ -199,6 +199,14 @@ class ExprMixin:
                     raise Unsupported("negation of extended real")
                 elif isinstance(v, VFloatInf):
                     yield s, VExt(z3.BoolVal(True), z3.RealVal(0))
+                elif isinstance(v, (VListRef, VList)) and s.lst(v).elem in (INT, REAL):
+                    # numpy: element-wise negation of an array
+                    self.assumptions.add('numpy array arithmetic is element-wise')
+                    l = s.lst(v)
+                    r = self.fresh_list(l.elem, 'neg', n=l.n)
+                    k = z3.Int(fresh_name('nk'))
+                    s.assume(z3.ForAll([k], z3.Implies(z3.And(0 <= k, k < l.n), z3.Select(r.arrs[0], k) == -l.at(k).t), patterns=[z3.Select(r.arrs[0], k)]))
+                    yield s, s.new_list(r)
                 else:
                     raise Unsupported(f"unary minus on {type(v).__name__}")
             else:
